@@ -46,7 +46,7 @@ func (r *Runner) accounting(what string, res *decode.Result) {
 				break
 			}
 		}
-		if r.Mon.Accounting && (what == "open" || what == "reopen") {
+		if r.Mon.Accounting && !r.statsFresh {
 			// statistics other than FreePageN are only refreshed when a write transaction closes
 			if s := r.DB.Stats(); s.FreePageN != len(st.Free) {
 				r.fail("stats", "%s: Stats FreePageN=%d, allocator has %d free", what, s.FreePageN, len(st.Free))
@@ -64,7 +64,7 @@ func (r *Runner) accounting(what string, res *decode.Result) {
 			}
 		}
 	}
-	if r.Mon.Accounting {
+	if r.Mon.Accounting && st != nil {
 		// Tx.Page(id).Type for every id agrees with D
 		_ = r.DB.View(func(tx *bolt.Tx) error {
 			free := map[uint64]bool{}
@@ -104,4 +104,3 @@ func (r *Runner) accounting(what string, res *decode.Result) {
 		}
 	}
 }
-
